@@ -93,11 +93,11 @@ def variants(rng, base, tier, k):
             # the checksum recorded for it is that of the output
             c["how"] = "scratch"
             for sp, st in c["stages"]:
-                dd = [(p, fl) for p, fl in st["out"] if fl == "d"]
+                dd = [(p, fl) for p, fl in st["out"] if fl in ("d", "dr")]
                 if dd:
                     p, fl = rng.choice(dd)
                     st["out"] = [x for x in st["out"] if x[0] != p]
-                    st.setdefault("in", []).append((p, "d"))
+                    st.setdefault("in", []).append((p, fl))          # a non-recursive directory stays non-recursive as an input
                     if not st["out"]:
                         c["init"].append(("file", b"dummy_" + sp.replace(b"/", b"_") + b".out", "g:1:1"))
                         st["out"] = [(b"dummy_" + sp.replace(b"/", b"_") + b".out", "s")]
@@ -165,6 +165,16 @@ def make_cases(rng, tier, n):
                         base["init"].append(("file", pth, spec_old))
             base["twin_old"] = old
             stats["twin_subdirs"] = stats.get("twin_subdirs", 0) + 1
+        if i % 5 == 3 and d0:
+            # names that differ only in their Unicode normalisation form (composed / decomposed) are different names with different
+            # contents, next to each other and in sub-directories of their own
+            p0 = d0[0][0]
+            nfc, nfd = "caf\u00e9".encode(), "cafe\u0301".encode()
+            base["init"] += [("file", p0 + b"/" + nfc + b".txt", "g:%d:11" % (900 + i)), ("file", p0 + b"/" + nfd + b".txt", "g:%d:12" % (950 + i)),
+                             ("dir", p0 + b"/" + nfc), ("file", p0 + b"/" + nfc + b"/x.bin", "g:%d:5" % (970 + i)),
+                             ("dir", p0 + b"/" + nfd), ("file", p0 + b"/" + nfd + b"/x.bin", "g:%d:6" % (980 + i)),
+                             ("file", p0 + b"/" + "\u212b".encode() + b"ngstrom", "g:%d:7" % (990 + i)), ("file", p0 + b"/" + "\u00c5".encode() + b"ngstrom", "g:%d:8" % (995 + i))]
+            stats["normalisation_twins"] = stats.get("normalisation_twins", 0) + 1
         if i % 5 == 4:
             # files of a MiB and more that end in a hole (extended with truncate, preallocated): their content is their bytes, zeros
             # included — as a file artifact and inside a directory; one history writes the zeros out
